@@ -5,11 +5,22 @@
     owns: every key of a per-session table names an attached session. *)
 From Nexus Require Import Router.Realm Router.AssocLemmas Router.RealmLib Router.RealmProofs
      Router.RealmMetaProofs Router.RealmLeave.
-From Nexus Require Import Router.BrokerWf Router.BrokerPres Router.BrokerSub.
+From Nexus Require Import Router.BrokerWf Router.BrokerPres Router.BrokerSub Router.BrokerHist.
 From Nexus Require Import Router.DealerLib Router.DealerProofs Router.DealerCall Router.DealerWf.
 From Coq Require Import Lia ZifyN ZifyBool.
 
 Definition client (r : realm) (sid : N) : Prop := find_session (r_clients r) sid <> None.
+
+(** the broker a realm starts with, and what never changes about it: which
+    subscriptions carry a history store, and their topic and match policy *)
+Definition broker0 (cfg : config) : broker := preinit_history empty_broker (c_hist cfg).
+
+Definition hist_same (b0 b : broker) : Prop :=
+  (forall id, has_history b id = has_history b0 id) /\
+  (forall id t k, has_history b0 id = true -> sub_sig b0 id t k -> sub_sig b id t k).
+
+Lemma hist_same_refl : forall b, hist_same b b.
+Proof. intros b; split; auto. Qed.
 
 Record realm_wf (r : realm) : Prop := mkRealmWf {
   rw_meta_id : s_id (r_meta r) = meta_id;
@@ -23,7 +34,9 @@ Record realm_wf (r : realm) : Prop := mkRealmWf {
   rw_test_keys : NoDup (map fst (r_testaments r));
   rw_cr_nonempty : forall sid ids, nget (d_callee_regs (r_dealer r)) sid = Some ids -> ids <> [];
   (* the meta session never calls *)
-  rw_calls_nometa : forall c x, cget (d_calls (r_dealer r)) c = Some x -> fst c <> meta_id
+  rw_calls_nometa : forall c x, cget (d_calls (r_dealer r)) c = Some x -> fst c <> meta_id;
+  (* the history subscriptions are the configured ones *)
+  rw_hist : hist_same (broker0 (r_cfg r)) (r_broker r)
 }.
 
 (** the id generators stay below [k] (ids wrap around at 2^53; the invariant
@@ -248,9 +261,47 @@ Proof. intros l sid H x ids. rewrite ngd. destruct (N.eqb x sid); [discriminate|
 
 Lemma wf_set_broker : forall r b pg,
     realm_wf r -> broker_wf b -> (forall x, nget (b_sess b) x <> None -> client r x) ->
+    hist_same (broker0 (r_cfg r)) b ->
     realm_wf (r_set_broker r b pg).
 Proof.
-  intros r b pg [A B C D E F G H I J] Wb Hs. constructor; cbn [r_set_broker r_meta r_clients r_broker r_dealer r_testaments]; auto.
+  intros r b pg [A B C D E F G H I J K] Wb Hs Hh. constructor; cbn [r_set_broker r_meta r_clients r_broker r_dealer r_testaments r_cfg]; auto.
+Qed.
+
+(** the four broker operations keep the history subscriptions *)
+Lemma hist_same_subscribe : forall b0 cfg b pg sid req opts topic,
+    broker_wf b -> b_idgen b < max_idN -> hist_same b0 b ->
+    hist_same b0 (fst (fst (subscribe cfg b pg sid req opts topic))).
+Proof.
+  intros b0 cfg b pg sid req opts topic W Hlt [H1 H2]. split.
+  - intros id. unfold has_history. rewrite subscribe_hist. apply H1.
+  - intros id t k Hh Hs. apply subscribe_sub_sig; auto.
+Qed.
+
+Lemma hist_same_unsubscribe : forall b0 b pg sid req subid,
+    broker_wf b -> hist_same b0 b -> hist_same b0 (fst (fst (unsubscribe b pg sid req subid))).
+Proof.
+  intros b0 b pg sid req subid W [H1 H2]. split.
+  - intros id. unfold has_history. rewrite unsubscribe_hist. apply H1.
+  - intros id t k Hh Hs. apply unsubscribe_sub_sig; [apply W|rewrite H1; exact Hh|auto].
+Qed.
+
+Lemma hist_same_remove : forall b0 b pg sid,
+    broker_wf b -> hist_same b0 b -> hist_same b0 (fst (fst (broker_remove_session b pg sid))).
+Proof.
+  intros b0 b pg sid W [H1 H2]. split.
+  - intros id. unfold has_history. rewrite remove_session_hist by exact W. apply H1.
+  - intros id t k Hh Hs. apply remove_session_sub_sig; [exact W|rewrite H1; exact Hh|auto].
+Qed.
+
+Lemma hist_same_publish : forall b0 cfg lk now b pg pub req opts topic args kw,
+    core_wf b -> hist_same b0 b ->
+    hist_same b0 (fst (fst (publish cfg lk now b pg pub req opts topic args kw))).
+Proof.
+  intros b0 cfg lk now b pg pub req opts topic args kw W [H1 H2].
+  destruct (publish cfg lk now b pg pub req opts topic args kw) as [[b' pg'] o] eqn:P. cbn [fst].
+  apply publish_hist_ext in P; [|exact W]. destruct P as (E & _ & M). split.
+  - intros id. unfold has_history. rewrite M. apply H1.
+  - intros id t k Hh Hs. specialize (H2 id t k Hh Hs). unfold sub_sig in *. rewrite E. exact H2.
 Qed.
 
 Definition calls_nometa (d : dealer) : Prop := forall c x, cget (d_calls d) c = Some x -> fst c <> meta_id.
@@ -262,7 +313,7 @@ Lemma wf_set_dealer : forall r d,
     realm_wf r -> dealer_wf (lookup r) d -> cr_nonempty (d_callee_regs d) -> calls_nometa d ->
     realm_wf (r_set_dealer r d).
 Proof.
-  intros r d [A B C D E F G H I J] Wd Hc Hn. constructor; cbn [r_set_dealer r_meta r_clients r_broker r_dealer r_testaments]; auto.
+  intros r d [A B C D E F G H I J K] Wd Hc Hn. constructor; cbn [r_set_dealer r_meta r_clients r_broker r_dealer r_testaments r_cfg]; auto.
 Qed.
 
 Lemma ids_below_mono : forall k k' r, ids_below k r -> k <= k' -> ids_below k' r.
@@ -279,8 +330,11 @@ Proof.
                            (wf_core _ (rw_broker r W))) as S.
   destruct (publish _ _ _ _ _ _ _ _ _ _ _) as [[b pg] o] eqn:P. cbn [fst] in S.
   split.
-  - apply wf_set_broker; [exact W|eapply publish_wf; [apply (rw_broker r W)|exact P]|].
-    rewrite S. apply (rw_sess_att r W).
+  - apply wf_set_broker; [exact W|eapply publish_wf; [apply (rw_broker r W)|exact P]| |].
+    + rewrite S. apply (rw_sess_att r W).
+    + pose proof (hist_same_publish (broker0 (r_cfg r)) (r_cfg r) (lookup r) (r_now r) (r_broker r) (r_pubgen r)
+                                    pub req opts topic args kw (wf_core _ (rw_broker r W)) (rw_hist r W)) as Hh.
+      rewrite P in Hh. exact Hh.
   - eapply publish_idgen; [apply (wf_core _ (rw_broker r W))|exact P].
 Qed.
 
@@ -364,7 +418,7 @@ Proof.
   subst r2.
   cbn [r_set_broker r_clients r_testaments r_broker r_dealer r_set_dealer r_set_testaments r_set_clients r_meta].
   split; [|split].
-  - constructor; cbn [r_set_broker r_clients r_testaments r_broker r_dealer r_set_dealer r_set_testaments r_set_clients r_meta].
+  - constructor; cbn [r_set_broker r_clients r_testaments r_broker r_dealer r_set_dealer r_set_testaments r_set_clients r_meta r_cfg].
     + apply (rw_meta_id r W).
     + rewrite find_del_other by congruence. apply (rw_no_meta r W).
     + intros s Hs. apply In_del_session in Hs. apply (rw_ids r W). tauto.
@@ -377,6 +431,8 @@ Proof.
     + apply NoDup_ndel. apply (rw_test_keys r W).
     + exact Hcr.
     + exact Hnm.
+    + pose proof (hist_same_remove (broker0 (r_cfg r)) (r_broker r) (r_pubgen r) sid (rw_broker r W) (rw_hist r W)) as Hh.
+      rewrite B in Hh. exact Hh.
   - destruct I as (I1 & I2 & I3). unfold ids_below.
     cbn [r_broker r_dealer r_set_broker r_set_dealer r_set_testaments r_set_clients].
     split; [lia|]. split; [lia|].
@@ -501,7 +557,7 @@ Proof.
   { intros x C. unfold client in *. cbn [r1 r_clients r_set_clients]. rewrite find_session_app.
     destruct (find_session (r_clients r) x); [discriminate|contradiction]. }
   assert (W1 : realm_wf r1).
-  { destruct W as [A B C D E F' G' H' I' J']. constructor; cbn [r1 r_set_clients r_meta r_clients r_broker r_dealer r_testaments]; auto.
+  { destruct W as [A B C D E F' G' H' I' J' K']. constructor; cbn [r1 r_set_clients r_meta r_clients r_broker r_dealer r_testaments r_cfg]; auto.
     - rewrite find_session_app, B. cbn [s s_id]. destruct (N.eqb_spec sid meta_id); [contradiction|reflexivity].
     - intros x Hx. apply in_app_or in Hx. destruct Hx as [Hx|[<-|[]]]; [auto|exact Hsid].
     - eapply dealer_wf_lookup_le; [exact Hle|exact E]. }
@@ -577,8 +633,8 @@ Proof.
     - rewrite find_put_same; [discriminate|exact C].
     - now rewrite find_put_other. }
   split.
-  - destruct W as [A B C D E F G H I J].
-    constructor; rewrite ?F2, ?F3, ?F4; auto.
+  - destruct W as [A B C D E F G H I J K].
+    constructor; rewrite ?F1, ?F2, ?F3, ?F4; auto.
     + unfold update_session. destruct (N.eqb_spec (s_id c) meta_id) as [Em|Em]; [exact Em|exact A].
     + unfold update_session. destruct (N.eqb_spec (s_id c) meta_id) as [Em|Em]; [exact B|].
       cbn [r_clients r_set_clients]. rewrite find_put_other by congruence. exact B.
@@ -635,8 +691,8 @@ Proof.
   - specialize (Hc c Ec).
     assert (G : forall te, (forall x, nget te x <> None -> x = c \/ nget (r_testaments r) x <> None) ->
                            NoDup (map fst te) -> realm_wf (r_set_testaments r te) /\ ids_below k (r_set_testaments r te)).
-    { intros te Hk Hn. split; [|exact I]. destruct W as [A B C D E' F G H I' J].
-      constructor; cbn [r_set_testaments r_meta r_clients r_broker r_dealer r_testaments]; auto.
+    { intros te Hk Hn. split; [|exact I]. destruct W as [A B C D E' F G H I' J K].
+      constructor; cbn [r_set_testaments r_meta r_clients r_broker r_dealer r_testaments r_cfg]; auto.
       intros x Hx. destruct (Hk x Hx) as [->|Hx']; [exact Hc|now apply G]. }
     destruct E as [E|E]; rewrite E; apply G.
     + intros x. rewrite ngs. destruct (N.eqb_spec x c); auto.
